@@ -124,9 +124,15 @@ def _r11_3(prog: Program, res: Result) -> None:
         fn = prog.funcs.get(("processing", name))
         if fn is None:
             continue
+        # the dict of replacements is the one handed to the node-replacing back-end
+        sinks = set()
+        for c in prog.calls_in(fn):
+            r = prog.resolve_call(c.func, fn.mod, fn)
+            if r and r[0] == "fn" and r[1].name in ("_replace_nodes", "replace_nodes") and len(c.args) >= 2 and isinstance(c.args[1], ast.Name):
+                sinks.add(c.args[1].id)
         for st in walk_own(fn.node):
             if not (isinstance(st, ast.Assign) and isinstance(st.targets[0], ast.Subscript) and isinstance(st.targets[0].value, ast.Name)
-                    and "replacement" in st.targets[0].value.id and isinstance(st.value, ast.Name)):
+                    and st.targets[0].value.id in sinks and isinstance(st.value, ast.Name)):
                 continue
             n += 1
             v = st.value.id
@@ -183,10 +189,18 @@ def _r11_2(prog: Program, res: Result) -> None:
     fn = prog.funcs.get(("processing", "_do_rewrite"))
     if fn is None:
         raise AnalysisError("anchor processing._do_rewrite not found")
+    # the table of per-line indentation: the X of `' ' * X[i]`
+    tables = set()
+    for n in walk_own(fn.node):
+        if isinstance(n, ast.BinOp) and isinstance(n.op, ast.Mult):
+            for a, b in ((n.left, n.right), (n.right, n.left)):
+                if isinstance(a, ast.Constant) and isinstance(a.value, str) and a.value.strip() == "" and a.value \
+                        and isinstance(b, ast.Subscript) and isinstance(b.value, ast.Name):
+                    tables.add(b.value.id)
     stores = []
     for n in walk_own(fn.node):
         if isinstance(n, ast.Assign) and len(n.targets) == 1 and isinstance(n.targets[0], ast.Subscript) \
-                and isinstance(n.targets[0].value, ast.Name) and "indent" in n.targets[0].value.id \
+                and isinstance(n.targets[0].value, ast.Name) and n.targets[0].value.id in tables \
                 and isinstance(n.value, ast.Constant) and n.value.value == 0:
             stores.append(n)
     if not stores:
@@ -359,6 +373,21 @@ def _selective_line_build(fn: Func, name: str) -> Optional[str]:
     return None
 
 
+def _mentions_literal_ranges(prog: Program, fn: Func, text: str) -> bool:
+    """Some identifier of the fact text is a local derived from the walk over the string literals of the tree."""
+    import re as _re
+    from ..preserve import derived_from
+
+    def is_literal_walk(n):
+        return isinstance(n, ast.Call) and (prog.dotted(n.func) or "") == "core.walk" and "ast.Constant(value=str)" in norm(n) and "ast.JoinedStr" in norm(n)
+    for ident in set(_re.findall(r"[A-Za-z_]\w*", text)):
+        if ident in fn.all_params:
+            continue
+        if derived_from(fn, ast.Name(id=ident, ctx=ast.Load()), is_literal_walk):
+            return True
+    return False
+
+
 def _literal_aware(prog: Program, res: Result, tf: TextFlow, reach) -> None:
     # (iii) delete_commented_code: ranges of string literals computed, edit under a non-overlap test
     fn = prog.funcs.get(("fixes", "delete_commented_code"))
@@ -370,7 +399,7 @@ def _literal_aware(prog: Program, res: Result, tf: TextFlow, reach) -> None:
         ok = has_ranges and bool(ys)
         for y in ys:
             worlds = pa.worlds_at(y)
-            ok = ok and bool(worlds) and all(world_has(w, False, lambda t: t.startswith("any(") and "code_ranges" in t and "&" in t) for w in worlds)
+            ok = ok and bool(worlds) and all(world_has(w, False, lambda t: t.startswith("any(") and "&" in t and _mentions_literal_ranges(prog, fn, t)) for w in worlds)
         res.decide(ok, "R11.1", fn.loc(), fn.fq, "comment removal on the whole text",
                    "literal-aware (iii): character ranges of all str/f-string literals are computed and every removal is reached only when it overlaps none of them" if ok else
                    "commented-code removal is no longer conditioned on a non-overlap test with the ranges of string literals: `# ...` lines inside a multi-line string can be deleted")
